@@ -5,6 +5,7 @@
 
 import hashlib
 import json
+import re
 import os
 import sys
 
@@ -36,11 +37,12 @@ def load_tree():
     real = os.path.realpath(rbql.__file__)
     if not real.startswith(os.path.realpath(pkg_root) + os.sep):
         raise HarnessError('rbql imported from %s, not from the tree %s' % (real, pkg_root))
-    try:
-        import pandas  # preload: forked helper processes must not pay the import
-    except ImportError:
-        pandas = None
-    import sqlite3
+    if not os.environ.get('RBQLSIM_BARE'):
+        try:
+            import pandas  # preload: forked helper processes must not pay the import
+        except ImportError:
+            pandas = None
+        import sqlite3
     t = Tree()
     t.rbql = rbql
     t.engine = rbql_engine
@@ -70,6 +72,21 @@ def _default(o):
     if isinstance(o, tuple):
         return list(o)
     return repr(o)
+
+
+_UNKNOWN_COLUMN = re.compile(r'Unable to find column "[^"]*"')
+
+
+def hash_neutral(x):
+    """View used for determinism digests only (never by an oracle): the engine picks which of several unknown `a.name`
+    columns it reports by iterating over a set of strings, so that one word of the message follows PYTHONHASHSEED."""
+    if isinstance(x, str):
+        return _UNKNOWN_COLUMN.sub('Unable to find column "?"', x)
+    if isinstance(x, (list, tuple)):
+        return [hash_neutral(v) for v in x]
+    if isinstance(x, dict):
+        return {k: hash_neutral(v) for k, v in x.items()}
+    return x
 
 
 def digest(obj):
